@@ -161,3 +161,118 @@ Definition holds_valid_slots (i o : val) : bool :=
               then negb (existsb (slot_expired (as_z (nth_val 1 op))) (as_l (nth_val 3 st)))
               else true))
           (combine (as_l (nth_val 3 i)) (as_l (nth_val 1 o))).
+
+(* ---- family "message" (C02 C15 C19, C14's UnmarshalText route) -------------- *)
+From GoSse Require Import FieldParser Message Whatwg.
+
+Definition enc_wire (m : msg) : val := match wire m with Some w => VB w | None => vpanic end.
+Definition dec_wverdict (v : val) : wverdict :=
+  match v with VL [k; e] => WFail (as_nat k) (as_n e) | _ => WOk end.
+Definition upd_nth {A} (l : list A) (i : nat) (f : A -> A) : list A :=
+  match nth_error l i with Some x => Queue.upd l i (f x) | None => l end.
+Definition get_msg (fam : list msg) (i : nat) : msg := nth i fam msg_empty.
+Definition enc_unmarshal (r : unmarshal_res) : val :=
+  match r with UOk _ => VL [VN 0] | UErrRetry v => VL [VN 1; VB v] | UErrEOF => VL [VN 2] end.
+(* UnmarshalText of arbitrary text additionally reports the ID and type it set *)
+Definition enc_unmarshal_fields (r : unmarshal_res) : val :=
+  match r with
+  | UOk m => VL [VN 0; vbool (is_set (m_id m)); VB (value (m_id m)); vbool (is_set (m_type m)); VB (value (m_type m))]
+  | _ => enc_unmarshal r
+  end.
+
+Definition message_step (fam : list msg) (op : val) : list msg * val :=
+  let t := as_nat (nth_val 1 op) in
+  match as_n (nth_val 0 op) with
+  | 0 => (upd_nth fam t (fun m => append_text m (as_bool (nth_val 2 op)) (map as_b (as_l (nth_val 3 op)))), VL [])
+  | 1 => match new_field (as_b (nth_val 2 op)) with
+         | (Some v, _) => (upd_nth fam t (fun m => mkm (m_chunks m) (Some v) (m_type m) (m_retry m)), VL [VN 0])
+         | (None, _) => (fam, VL [VN 1])
+         end
+  | 2 => match new_field (as_b (nth_val 2 op)) with
+         | (Some v, _) => (upd_nth fam t (fun m => mkm (m_chunks m) (m_id m) (Some v) (m_retry m)), VL [VN 0])
+         | (None, _) => (fam, VL [VN 1])
+         end
+  | 3 => (upd_nth fam t (fun m => mkm (m_chunks m) (m_id m) (m_type m) (as_z (nth_val 2 op))), VL [])
+  | 4 => (fam ++ [get_msg fam t], VL [])
+  | 5 => (fam, match write_to (get_msg fam t) (map dec_wverdict (as_l (nth_val 2 op))) with
+               | Some (n, e, acc) => VL [vnat n; VN e; VB acc]
+               | None => vpanic
+               end)
+  | 6 => match wire (get_msg fam t) with
+         | Some w => let r := unmarshal w in
+                     (match r with UOk m => fam ++ [m] | _ => fam end, enc_unmarshal r)
+         | None => (fam, vpanic)
+         end
+  | 7 => let r := unmarshal (as_b (nth_val 1 op)) in
+         (match r with UOk m => fam ++ [m] | _ => fam end, enc_unmarshal_fields r)
+  | 8 => (upd_nth fam t (fun m => mkm (m_chunks m) None (m_type m) (m_retry m)), VL [])
+  | _ => (upd_nth fam t (fun m => mkm (m_chunks m) (m_id m) None (m_retry m)), VL [])
+  end.
+
+Fixpoint run_message_ops (fam : list msg) (ops : list val) : list val :=
+  match ops with
+  | [] => []
+  | op :: rest =>
+      let '(fam', r) := message_step fam op in
+      VL [r; VL (map enc_wire fam')] :: run_message_ops fam' rest
+  end.
+
+Definition run_message (i : val) : val := VL (run_message_ops [msg_empty] (as_l i)).
+
+(* ---- the reference interpreter on a wire text (C02) ------------------------ *)
+Definition enc_event (e : event) : val := VL [VB (ev_id e); VB (ev_type e); VB (ev_data e)].
+Definition enc_serr (e : serr) : val :=
+  match e with EEOF => VN 1 | EUnexpectedEOF => VN 2 | ETooLong => VN 3 | EReader n => VL [VN n] | ECtx => VN 4 end.
+Definition enc_yield (y : yield) : val :=
+  match y with YEv e => VL [VN 0; enc_event e] | YRetry n => VL [VN 1; VN n] | YErr e => VL [VN 2; enc_serr e] end.
+
+(* direct oracle for C15 / C19 on the observed behaviour alone *)
+Definition is_prefix_b (p s : bytes) : bool := FieldParser.is_prefix p s.
+Definition input_has_nul_id (ops : list val) : bool :=
+  existsb (fun op => (as_n (nth_val 0 op) =? 1) && existsb (fun b => b =? 0) (as_b (nth_val 2 op))) ops
+  || existsb (fun op => as_n (nth_val 0 op) =? 7) ops.
+
+Fixpoint holds_message_ops (nul : bool) (prev : list val) (ops outs : list val) : bool :=
+  match ops, outs with
+  | [], [] => true
+  | op :: ops', out :: outs' =>
+      let r := nth_val 0 out in
+      let wires := as_l (nth_val 1 out) in
+      let t := as_nat (nth_val 1 op) in
+      let kind := as_n (nth_val 0 op) in
+      let wt := nth t prev (VB []) in
+      (* C19: nobody but the target changes; members are only ever appended *)
+      let others_same :=
+        forallb (fun p : nat * val =>
+                   let (j, w) := p in
+                   if (j =? t)%nat && ((kind <=? 3) || (kind =? 8) || (kind =? 9)) then true
+                   else val_eqb w (nth j wires (VL [])))
+                (combine (seq 0 (length prev)) prev) in
+      let specific :=
+        match kind with
+        | 4 => val_eqb (last wires (VL [])) wt        (* a clone encodes like its original *)
+        | 5 => let n := as_nat (nth_val 0 r) in
+               let e := as_n (nth_val 1 r) in
+               let acc := as_b (nth_val 2 r) in
+               (n =? length acc)%nat && is_prefix_b acc (as_b wt) &&
+               (if e =? 0 then bytes_eqb acc (as_b wt)
+                else existsb (fun v => match v with VL [_; e'] => as_n e' =? e | _ => false end) (as_l (nth_val 2 op)))
+        | 6 => match as_b wt with
+               | [] => val_eqb r (VL [VN 2])
+               | _ => if nul then true
+                      else val_eqb r (VL [VN 0]) && val_eqb (last wires (VL [])) wt
+               end
+        | 7 => (* C14: an ID/type set by Message.UnmarshalText is a single line *)
+               match r with
+               | VL [_; ids; idv; tys; tyv] =>
+                   implb (as_bool ids) (no_nlb (as_b idv)) && implb (as_bool tys) (no_nlb (as_b tyv))
+               | _ => true
+               end
+        | _ => true
+        end in
+      others_same && specific && holds_message_ops nul wires ops' outs'
+  | _, _ => false
+  end.
+
+Definition holds_message (i o : val) : bool :=
+  holds_message_ops (input_has_nul_id (as_l i)) [VB []] (as_l i) (as_l o).
